@@ -465,8 +465,18 @@ def canon_step(sp):
 
 class C09(Family):
     prop = "C09"
-    # tree theorem over run-time shapes; histories over live objects
-    extra_modules = ["CtrlVerif.Props.C09Tree", "CtrlVerif.Props.C09Hist"]
+    extra_modules = ["CtrlVerif.Props.C09Tree",     # tree theorem over run-time shapes
+                     "CtrlVerif.Props.C09Hist",     # histories over live objects
+                     # source-text tie (core/py2lean_frd.py): Generated/FRD*.lean = Model/FRDDyn.lean, per method
+                     "CtrlVerif.Props.C09GenConvert", "CtrlVerif.Props.C09GenBasic", "CtrlVerif.Props.C09GenMul",
+                     "CtrlVerif.Props.C09GenAdd", "CtrlVerif.Props.C09GenDiv", "CtrlVerif.Props.C09GenPow",
+                     "CtrlVerif.Props.C09GenFeedback", "CtrlVerif.Props.C09GenIndex", "CtrlVerif.Props.C09Gen"]
+
+    def pre_build(self):
+        import os
+        from core import py2lean_frd, leanproj
+        problems, self.gen_info = py2lean_frd.regenerate(os.environ.get("VERIF_REPO") or "/repo", leanproj.LEAN)
+        return problems
     externals = ["numpy.linalg.inv (exact counterpart det^-1 * adjugate in the model, validated by the same runs)",
                  "numpy.exp(1j*omega*dt) for discrete-time LTI operands (values supplied to the model)",
                  "scipy.interpolate.splprep/splev (only its interpolation property at the knots is used)"]
